@@ -67,6 +67,31 @@ function jsTokens(acorn, code, goal) {
   return toks;
 }
 
+// a small CSS tokenizer (CSS Syntax 3 token starts): comments, strings, identifier-like tokens (with their leading
+// '.', '#', '@' or '--', which is where esbuild's mappings point), numbers with units, single-character punctuation
+function cssTokens(code) {
+  const toks = []; const n = code.length; let i = code.charCodeAt(0) === 0xFEFF ? 1 : 0;
+  const isWs = (c) => c === 32 || c === 9 || c === 10 || c === 13 || c === 12;
+  const identStart = /[A-Za-z_\u0080-\uffff\\]/, identChar = /[-\w\u0080-\uffff\\]/;
+  while (i < n) {
+    const c = code[i];
+    if (isWs(code.charCodeAt(i))) { i++; continue; }
+    if (c === '/' && code[i + 1] === '*') { const e = code.indexOf('*/', i + 2); const end = e < 0 ? n : e + 2; toks.push({ start: i, end, kind: 'comment' }); i = end; continue; }
+    if (c === '"' || c === "'") { let j = i + 1; while (j < n && code[j] !== c && code[j] !== '\n') { if (code[j] === '\\') j++; j++; } toks.push({ start: i, end: j + 1, kind: 'value', v: 's:' + code.slice(i + 1, j) }); i = j + 1; continue; }
+    let j = i;
+    if (c === '.' || c === '#' || c === '@') j++;
+    let k = j; while (code[k] === '-') k++;
+    if (k - j <= 2 && k < n && identStart.test(code[k]) && !(c === '.' && /\d/.test(code[j]))) {
+      let e = k; while (e < n && identChar.test(code[e])) { if (code[e] === '\\') e++; e++; }
+      toks.push({ start: i, end: e, kind: 'name', v: code.slice(k, e) }); i = e; continue;
+    }
+    const m = /^[+-]?(?:\d+\.?\d*|\.\d+)(?:[eE][+-]?\d+)?/.exec(code.slice(i, i + 40));
+    if (m) { let e = i + m[0].length; while (e < n && /[A-Za-z%]/.test(code[e])) e++; toks.push({ start: i, end: e, kind: 'value', v: 'n:' + m[0].replace(/^\+/, '') }); i = e; continue; }
+    toks.push({ start: i, end: i + 1, kind: 'punct', v: undefined }); i++;
+  }
+  return toks;
+}
+
 // identifiers like v_123, strings/template chunks like "s_124…" / `t_125` (one marker only: folded strings are not markers), numbers 1xxxxxx
 const MARKER = /^(?:[a-zA-Z]+_\d{3,}|s:[st]_\d{3,}(?:[^\d_][^_]*)?|n:1\d{6})$/;
 function markerValue(tok) { if (!tok || tok.v === undefined) return null; const v = tok.kind === 'name' ? tok.v : tok.v; if (!MARKER.test(v)) return null; return v.replace(/^s:/, ''); }
@@ -92,15 +117,16 @@ function smapcheck(acorn, req) {
     const text = files[k];
     if (map.sourcesContent) { const sc = map.sourcesContent[i]; if (req.expectContent && sc !== text) add('sourcesContent-differs', `${s}: ${JSON.stringify(String(sc).slice(0, 60))} vs file ${JSON.stringify(text.slice(0, 60))}`); }
     else if (req.expectContent) add('sourcesContent-missing', s);
-    let toks; try { toks = jsTokens(acorn, text, 'module'); } catch (e) { try { toks = jsTokens(acorn, text, 'script'); } catch (e2) { return { text, starts: lineStarts(text), toks: null, err: String(e2.message) }; } }
+    const css = req.lang === 'css';
+    let toks; if (css) toks = cssTokens(text); else try { toks = jsTokens(acorn, text, 'module'); } catch (e) { try { toks = jsTokens(acorn, text, 'script'); } catch (e2) { return { text, starts: lineStarts(text), toks: null, err: String(e2.message) }; } }
     const byStart = new Map(toks.map(t => [t.start, t]));
-    return { text, starts: lineStarts(text), toks, byStart, name: s };
+    return { text, starts: lineStarts(text, css), toks, byStart, name: s };
   });
   if (req.expectNoContent && map.sourcesContent && map.sourcesContent.some(x => x != null)) add('sourcesContent-present-though-excluded', '');
   if (req.sourceRoot !== undefined && (map.sourceRoot || '') !== req.sourceRoot) add('sourceRoot-differs', `${map.sourceRoot} vs ${req.sourceRoot}`);
   // generated side
-  const out = req.code; const outStarts = lineStarts(out);
-  let outToks; try { outToks = jsTokens(acorn, out, req.goal === 'script' ? 'script' : 'module'); } catch (e) { try { outToks = jsTokens(acorn, out, 'script'); } catch (e2) { return { ok: false, err: 'output does not tokenize: ' + e2.message }; } }
+  const out = req.code; const outStarts = lineStarts(out, req.lang === 'css');
+  let outToks; if (req.lang === 'css') outToks = cssTokens(out); else try { outToks = jsTokens(acorn, out, req.goal === 'script' ? 'script' : 'module'); } catch (e) { try { outToks = jsTokens(acorn, out, 'script'); } catch (e2) { return { ok: false, err: 'output does not tokenize: ' + e2.message }; } }
   const outByStart = new Map(outToks.map(t => [t.start, t]));
   const outSorted = outToks.filter(t => t.kind !== 'comment');
   const designated = new Set();
